@@ -193,7 +193,7 @@ def draw_payload_edit(draw, mod, tname, depth):
                 mt = specmodel.by_mtype().get(mod.project.modules[mi].mtype)
                 if mt is not None and ci < len(mt.controllers) and mt.controllers[ci].kind in ("enum", "bool"):
                     mi = 0xFFF0
-            return ["m_map", i, mi, ci]
+            return ["m_map" if draw(st.booleans()) else "m_map_inplace", i, mi, ci]
         if k == "m_label":
             return ["m_label", draw(st.integers(0, min(n, 96) - 1)), draw(st.one_of(vs.text_no_nul(10), vs.text_no_nul(10), vs.long_text()))]
         return ["embedded"] + draw(draw_edit(mod.project, depth + 1).filter(lambda e: not live_propagation_hazard(mod, e)))
@@ -431,6 +431,10 @@ def apply_module_edit(mod, e):
             mod.user_defined_controllers = e[2]
         elif s == "m_map":
             mod.mappings.values[e[2]] = cls.Mapping((e[3], e[4]))
+        elif s == "m_map_inplace":
+            # the other usual way: the Mapping item that is there is given new numbers
+            mp = mod.mappings.values[e[2]]
+            mp.module, mp.controller = e[3], e[4]
         elif s == "m_label":
             mod.user_defined[e[2]].label = e[3]
         elif s == "embedded":
@@ -578,7 +582,7 @@ def module_paths(mod, e, base):
         return "%s/stored_values/%d" % (pb, e[2]), raw, ["%s/project/modules/%d/controllers/%s" % (pb, e[5], e[6])]
     if s == "m_count":
         return base + "/options/user_defined_controllers", e[2], [pb + "/" + x for x in ("count", "attached", "labels", "stored_values")] + [base + "/cmid/user_defined_"]
-    if s == "m_map":
+    if s in ("m_map", "m_map_inplace"):
         return "%s/mappings/%d" % (pb, e[2]), [e[3], e[4]], []
     if s == "m_label":
         return "%s/labels/%d" % (pb, e[2]), e[3], []
